@@ -13,6 +13,7 @@ RULE = ("annotations from the C01 generator (valid, and with one tree-level faul
 ASSUMPTIONS = ["relational monitor: a defect affecting both executions identically is invisible here (C01 covers that)",
                "only ERROR severity is compared (capitalisation warnings legitimately depend on spelling)"]
 MIN_MONITOR_EVALS = {"revalidation-stable": 3000, "codes-equal-under-rewrite": 3000, "repeat-reported-anywhere": 100}
+MIN_KINDS = {"base-kind": {"mixed-toplevel": 50}, "rewrite": {"respace-text": 1000}}
 TREE_KINDS = ["unknown-tag", "extension-forbidden", "extension-is-schema-term", "requires-child", "bad-unit", "bad-value",
               "repeated-tag", "repeated-group", "taggroup-outside-group", "toplevel-nested", "empty-group",
               "stray-placeholder", "undeclared-def", "def-extra-value", "def-missing-value", "altered-def-expand",
@@ -80,6 +81,43 @@ def check_case(case, rec):
         rec.violation("error codes change under a meaning-preserving rewrite", dict(case, codes_original=a, codes_rewrite=b), key=key)
 
 
+TEXT_KINDS = ["double-comma", "leading-comma", "trailing-comma", "empty-group", "extra-open-paren", "extra-close-paren",
+              "swapped-parens", "missing-comma", "tilde", "control-char"]
+
+
+def respace_text(text, rng):
+    """Change only the blanks next to commas and parentheses (blanks inside a tag are part of the tag)."""
+    import re
+    out = []
+    for part in re.split(r"([,()])", text):
+        if part in (",", "(", ")"):
+            out.append(part)
+        else:
+            out.append(rng.choice(["", "", " ", "  "]) + part.strip(" ") + rng.choice(["", "", " ", "  "]))
+    return "".join(out)
+
+
+def mixed_toplevel(gen, items, rng):
+    """A second, different top-level-group tag put into a temporal group (an invalid pairing unless it is Delay with
+    a timing tag): the verdict must not depend on the order in which the members are written."""
+    import copy
+    items = copy.deepcopy(items)
+    g = gen.temporal_group()
+    if g is None:
+        return None
+    have = {t["node"].rsplit("/", 1)[-1].casefold() for t in g["kids"] if t["t"] == "tag" and t.get("node")}
+    cands = [k for k in ("Event-context", "Delay", "Duration", "Onset", "Offset", "Inset") if k in gen.top
+             and k.casefold() not in have]
+    if not cands:
+        return None
+    k = rng.choice(cands)
+    n = gen.sp[k]
+    extra = annot.tag(gen.spell(n), ("/" + gen._time_value(n)) if n.takes_value else "", n.path, "temporal")
+    g["kids"].insert(rng.randrange(0, len(g["kids"]) + 1), extra)
+    items.insert(rng.randrange(0, len(items) + 1), g)
+    return items
+
+
 def run_shard(shard, rec):
     rng = rec.rng
     v = shard["version"]
@@ -107,9 +145,34 @@ def run_shard(shard, rec):
             gen.used = saved
             if m is not None and m["items"] is not None:
                 items, kind = m["items"], k
+        if kind == "valid" and rng.random() < 0.25:
+            saved = set(gen.used)
+            try:
+                it3 = mixed_toplevel(gen, items, rng)
+            except RuntimeError:
+                it3 = None
+            gen.used = saved
+            if it3 is not None:
+                items, kind = it3, "mixed-toplevel"
         text = annot.render(items, rng)
         ntags = sum(1 for t, _ in annot.walk(items) if t["t"] == "tag")
         ap = rng.random() < 0.5
+        # text-level delimiter faults: only the blanks around commas and parentheses are rewritten
+        if i % 3 == 0:
+            tk = rng.choice(TEXT_KINDS)
+            saved = set(gen.used)
+            try:
+                m = annot.mutate(gen, items, tk, rng)
+            except RuntimeError:
+                m = None
+            gen.used = saved
+            for base_text, bk in ([(m["text"], tk)] if m else []) + [(text, kind)]:
+                for _r in range(3):
+                    rewrite = respace_text(base_text, rng)
+                    case = dict(schema=v, defs=defs, text=base_text, rewrite=rewrite, ap=ap, how="respace-text", kind=bk)
+                    rec.case((v, tuple(defs), base_text, rewrite, ap), nontrivial=(rewrite != base_text and ntags >= 3))
+                    check_case(case, rec)
+                rec.count("text-base-kind", bk)
         for r in range(shard["rewrites"]):
             how = ["respell", "respace", "permute", "respell+permute", "all", "permute"][r % 6]
             it2 = items
@@ -125,6 +188,14 @@ def run_shard(shard, rec):
                 rec.sample(case)
         rec.count("base-kind", kind)
     rec.count("schema", v, shard["n"])
+
+
+def finalize(merged, tier, inconclusive):
+    for hist, wants in MIN_KINDS.items():
+        for k, least in wants.items():
+            got = merged.hist.get(hist, {}).get(k, 0)
+            if got < least:
+                inconclusive.append(f"{hist} '{k}' exercised {got} times (< {least})")
 
 
 def replay(case, rec):
